@@ -75,6 +75,8 @@ impl<E: Engine> RateEncoder<E> for HighRateEncoder<E> {
 
         // FFT
 
+        #[cfg(verif_shuttle)]
+        crate::verif::sched_point();
         engine.fft(&mut work, 0, chunk_size, recovery_count, 0);
 
         // UNDO LAST CHUNK ENCODING
@@ -201,7 +203,11 @@ impl<E: Engine> RateDecoder<E> for HighRateDecoder<E> {
 
         // EVALUATE POLYNOMIAL
 
+        #[cfg(verif_shuttle)]
+        crate::verif::sched_point();
         E::eval_poly(&mut erasures, original_end);
+        #[cfg(verif_shuttle)]
+        crate::verif::sched_point();
 
         // MULTIPLY SHARDS
 
@@ -233,6 +239,8 @@ impl<E: Engine> RateDecoder<E> for HighRateDecoder<E> {
         // IFFT / FORMAL DERIVATIVE / FFT
 
         self.engine.ifft(&mut work, 0, work_count, original_end, 0);
+        #[cfg(verif_shuttle)]
+        crate::verif::sched_point();
         engine::formal_derivative(&mut work);
         self.engine.fft(&mut work, 0, work_count, original_end, 0);
 
